@@ -164,7 +164,10 @@ def handover_scenarios(coll, stats, tier):
     migrations, soft-applied initial migrations) under the acceptor."""
     from vf.checks import c10
     from django_evolution import management
-    for (k, m, s_, st, nb, pkg) in c10.configs(tier):
+    for cfg_t in c10.configs(tier):
+        if len(cfg_t) != 6:
+            continue        # other-database configurations are C10's
+        (k, m, s_, st, nb, pkg) = cfg_t
         if pkg:
             continue
         cfg = c10.Config(k, m, s_, st, nb, pkg)
